@@ -146,6 +146,61 @@ func runC17(c *Ctx) {
 		c.Emit("c17.aabb.contains", bbF(bb)+" "+vF(pt), B(bb.Contains(pt)))
 		c.Emit("c17.aabb.contains", bbF(e)+" "+vF(pt), B(e.Contains(pt)))
 		c.Emit("c17.aabb.intersects", bbF(bb)+" "+bbF(bb2), B(bb.Intersects(bb2)))
+		// Props/C17More.lean: Intersects iff a shared point; Expand; Volume; ClosestPoint is the NEAREST box point
+		{
+			r := 0.
+			if bb.Intersects(bb2) {
+				r = 1
+			}
+			c.Emit("c17.holds.intersects", bbF(bb)+" "+bbF(bb2)+" "+F(r), "true")
+			// a box touching / just missing bb along one axis
+			tb := geometry.NewAABB(bb.Center().Add(vector3.New(bb.Size().X(), 0., 0.)), bb.Size())
+			if c.Rng.Intn(2) == 0 {
+				tb = geometry.NewAABB(bb.Center().Add(vector3.New(bb.Size().X()*1.5, 0., 0.)), bb.Size().Scale(0.5))
+			}
+			r = 0
+			if bb.Intersects(tb) {
+				r = 1
+			}
+			c.Emit("c17.aabb.intersects", bbF(bb)+" "+bbF(tb), B(bb.Intersects(tb)))
+			c.Emit("c17.holds.intersects", bbF(bb)+" "+bbF(tb)+" "+F(r), "true")
+			amount := c.Rng.Float64() * 3
+			ex := bb
+			ex.Expand(amount)
+			c.Emit("c17.aabb.expand", bbF(bb)+" "+F(amount), bbF(ex))
+			c.Emit("c17.holds.aabb_contains", bbF(ex)+" "+vF(bb.Min()), "true")
+			c.Emit("c17.holds.aabb_contains", bbF(ex)+" "+vF(bb.Max()), "true")
+			c.Emit("c17.aabb.volume", bbF(bb), F(bb.Volume()))
+			cp := bb.ClosestPoint(pt)
+			for i := 0; i < 3; i++ {
+				// a point of the box: convex combination of min and max per axis
+				mn, mx := bb.Min(), bb.Max()
+				q := vector3.New(mn.X()+(mx.X()-mn.X())*c.Rng.Float64(), mn.Y()+(mx.Y()-mn.Y())*c.Rng.Float64(), mn.Z()+(mx.Z()-mn.Z())*c.Rng.Float64())
+				if i == 0 {
+					q = vector3.New(mn.X(), mx.Y(), mn.Z()) // a corner
+				}
+				if bb.Contains(q) {
+					c.Emit("c17.holds.closest_nearest", bbF(bb)+" "+vF(pt)+" "+vF(cp)+" "+vF(q), "true")
+				}
+			}
+		}
+		// Props/C17More.lean: FromTheta is the rotation by θ about the axis; TRS constructors; MatFromDirs
+		if ax.Length() > 1e-6 {
+			c.Emit("c17.holds.rodrigues", F(theta)+" "+vF(ax)+" "+vF(sv)+" "+vF(quaternion.FromTheta(theta, ax).Rotate(sv)), "true")
+			c.Emit("c17.holds.rodrigues", F(theta)+" "+vF(ax)+" "+vF(ax)+" "+vF(quaternion.FromTheta(theta, ax).Rotate(ax)), "true")
+		}
+		{
+			d := c.v3()
+			c.Emit("c17.trs.ctor", F(0)+" "+vF(tp)+" "+vF(v), vF(trs.Position(tp).Transform(v)))
+			c.Emit("c17.trs.ctor", F(1)+" "+vF(ts)+" "+vF(v), vF(trs.Scale(ts).Transform(v)))
+			c.Emit("c17.trs.ctor", F(2)+" "+qF(u1)+" "+vF(v), vF(trs.Rotation(u1).Transform(v)))
+			c.Emit("c17.trs.ctor", F(3)+" "+vF(tp)+" "+qF(u1)+" "+vF(ts)+" "+vF(d)+" "+vF(v), vF(t.Translate(d).Transform(v)))
+			up, fwd, off := c.unit3(), c.v3(), c.v3()
+			c.Emit("c17.mat.fromdirs", vF(up)+" "+vF(fwd)+" "+vF(off), mF(mat.MatFromDirs(up, fwd, off)))
+			if up.Cross(fwd).Length() > 1e-3 {
+				c.Emit("c17.holds.fromdirs_frame", vF(up)+" "+vF(fwd)+" "+vF(off)+" "+mF(mat.MatFromDirs(up, fwd, off)), "true")
+			}
+		}
 		// mesh level
 		{
 			n := 1 + c.Rng.Intn(6)
